@@ -124,7 +124,7 @@ impl Buildpack for TestBuildpack {
             for (k, v) in [("com.example.version", "0"), ("org.a", "1"), ("zz", "2"), ("com.example.version", "1.2.3"), ("b", "3"), ("a.b.c", "4")] {
                 lb.label(libcnb::data::launch::Label { key: k.to_string(), value: v.to_string() });
             }
-            lb.slice(libcnb::data::launch::Slice { path_globs: vec!["a/**".to_string(), "b".to_string()] });
+            lb.slice(libcnb::data::launch::Slice { path_globs: ["a/**", "b", "zz/*.rb", "m/n", "c.txt", "0"].iter().map(ToString::to_string).collect() });
             lb.slice(libcnb::data::launch::Slice { path_globs: vec!["c".to_string()] });
             r = r.launch(lb.build());
         }
